@@ -57,7 +57,10 @@ CLAIMED = {
  "C09": ("Theorems over exact rationals: interpolating the stored deltas at a master's location returns exactly that master for ANY "
          "lower-triangular weight matrix (deltas_reproduce_masters, induction over the master list), tents are 1 at the peak and within [0,1], "
          "the negative-side decomposition used by rebaseTent is exact (neg_chop), normalizeValue sends min/default/max to -1/0/+1 and clamps into "
-         "[-1,1], renormalizeValue sends the new limits to -1/0/+1. normalizeValue, supportScalar, piecewiseLinearMap, renormalizeValue and the "
+         "[-1,1], renormalizeValue sends the new limits to -1/0/+1. The master-order bookkeeping of VariationModel (origLocations, mapping, "
+         "reverseMapping, the getSubModel cache, reorderMasters incl. its half-failed case) is modelled as a state machine: over ANY history "
+         "every getSubModel answer equals that of a cache-free model and the index maps stay correct (refinement + invariant by induction over "
+         "the operation list; operation-sequence correspondence against the real class). normalizeValue, supportScalar, piecewiseLinearMap, renormalizeValue and the "
          "whole of _solve/rebaseTent are modelled and tied to the code by exact/1e-9 correspondence; on the implementation the property itself "
          "is evaluated: rebased tents sum to the original tent at 33 points of the new range for every continuous tent, random master sets are "
          "reproduced exactly and via master weights, IUP-optimised deltas reconstruct within tolerance, VarStore optimize/subset/prune preserve "
